@@ -2,7 +2,7 @@
 sc3 API, in whichever mode the process was initialised) - see DESIGN.md E3.
 
 program = {'clocks': [{'tempo': x, 'beats': b|None}],
-           'routines': {name: {'body': [op, ...]}},
+           'routines': {name: {'body': [op, ...], 'nest': 0|1|2}},
            'top': [op, ...], 'tail': seconds}
 ops (JSON lists):
   ['log', tag]                      record logical time (and beats) here
@@ -79,7 +79,13 @@ class Interp:
         self.flows = [stm.FlowVar() for _ in range(4)]
         self.routines = {}
         for name, r in self.prog['routines'].items():
-            self.routines[name] = stm.Routine(self.make_gen(name, r['body']))
+            rt = stm.Routine(self.make_gen(name, r['body']))
+            # 'nest': n - the body runs in a routine nested n levels deep
+            # inside the routine that is played (embedded in it): by the
+            # documentation the whole nest behaves as the one routine
+            for lvl in range(r.get('nest', 0)):
+                rt = stm.Routine(self.make_wrapper(name, rt, lvl))
+            self.routines[name] = rt
 
     def teardown(self):
         for c in self.clocks:
@@ -90,6 +96,14 @@ class Interp:
 
     def rec(self, **kw):
         self.trace.append(kw)
+
+    def make_wrapper(self, name, inner, lvl):
+        stm = self.stm
+
+        def wrapper(inval):
+            yield from stm.embed(inner, inval)
+        wrapper.__qualname__ = f'prog.{name}.nest{lvl}'
+        return wrapper
 
     def make_gen(self, name, body):
         interp = self
@@ -115,7 +129,9 @@ class Interp:
         k = op[0]
         main, bi = self.main, self.bi
         if k == 'log':
-            tt = main.current_tt
+            # (a nested routine is driven by the clock of the routine
+            # that is played)
+            tt = main.current_tt.thread_player
             c = tt._clock
             beats = c.beats if isinstance(c, self.clk.TempoClock) else None
             self.rec(kind='log', r=who, tag=op[1], secs=self.now(),
